@@ -139,7 +139,8 @@ theorem pick_mono (fuel : Nat) (w : Worker) : Mono w (Worker.pick fuel w).w := b
       · split
         · exact h0.trans (ih _)
         · split
-          · exact h0.trans (ih _)
+          · refine (h0.trans ?_).trans (ih _)
+            exact Mono.of_eq rfl (fun _ h => h) (fun _ h => h) rfl
           · exact h0
 
 /-- the cancelled set is not touched by `_get_next_ready_task` -/
@@ -290,19 +291,17 @@ theorem processAwait_mono (r r' : Run) (m : Nat) (nxt : Bool) (h : processAwait 
     · exact Mono.of_eq rfl (by simp [keys_boxSet_of_some _ _ _ _ hb]) (fun _ h => h) rfl
     · exact Mono.of_eq rfl (by simp [keys_boxSet_of_some _ _ _ _ hb]) (fun _ h => h) rfl
 
-theorem completionLoop_mono (fuel i : Nat) (r : Run) : Mono r.w (completionLoop fuel i r).1.w := by
-  induction fuel generalizing i r with
-  | zero => exact Mono.refl _
-  | succ n ih =>
+theorem completionLoop_mono (ms : List Nat) (r : Run) : Mono r.w (completionLoop ms r).1.w := by
+  induction ms generalizing r with
+  | nil => exact Mono.refl _
+  | cons m ms ih =>
     simp only [completionLoop]
     split
-    · exact Mono.refl _
     · split
-      · split
-        · refine Mono.trans ?_ (ih _ _)
-          exact Mono.of_eq rfl (fun k hk => (mem_keys_boxErase _ _ _ hk).1) (fun _ h => h) rfl
-        · exact (cancelBox_mono _ _ _).trans (ih _ _)
-      · exact Mono.refl _
+      · refine Mono.trans ?_ (ih _)
+        exact Mono.of_eq rfl (fun _ hk => (mem_keys_boxErase _ _ _ hk).1) (fun _ h => h) rfl
+      · exact (cancelBox_mono _ _ _).trans (ih _)
+    · exact Mono.refl _
 
 theorem completionEnter_mono (r : Run) (v : Val) : Mono r.w (completionEnter r v).w := by
   unfold completionEnter
@@ -314,7 +313,7 @@ theorem processCompletion_mono (r : Run) (v : Val) : Mono r.w (processCompletion
   unfold processCompletion
   split
   · exact Mono.refl _
-  · exact (completionEnter_mono r v).trans (completionLoop_mono _ _ _)
+  · exact (completionEnter_mono r v).trans (completionLoop_mono _ _)
 
 theorem bubbleErr_mono (w : Worker) (t : Task) (out : List Msg) (evs : List Ev) (cls : Nat)
     (isRt : Bool) : Mono w (bubbleErr w t out evs cls isRt).w := by
